@@ -77,7 +77,7 @@ fn observe(ctx: &mut Ctx, p: *const u8, expected: V, what: impl Fn() -> String) 
 fn run(ctx: &mut Ctx) {
     // ---------------- load
     let max_len: u32 = if ctx.quick() && ctx.dev_profile() { 4096 + 16 } else { 65536 + 16 };
-    ctx.bound("load", format!("null pointer; length word 0..={} x architecture {{0,4}} x magic {{MAGIC, MAGIC^1, 0}} x checksum {{correct, +1, -1, ^0x80000000}}; for lengths 0..=64, 4096 and 65536 additionally magic with every single bit flipped x checksum with every single bit flipped; header placed flush against a PROT_NONE guard page", max_len));
+    ctx.bound("load", format!("null pointer; length word 0..={} x architecture {{0,4}} x magic {{MAGIC, MAGIC^1, 0, byte-swapped MAGIC, half-swapped MAGIC, 0x36D76289, 0x1BADB002}} x checksum {{correct, +1, -1, ^0x80000000}}; for lengths 0..=64, 4096 and 65536 additionally magic with every single bit flipped x checksum with every single bit flipped; header placed flush against a PROT_NONE guard page", max_len));
     let arena = Arena::new((max_len as usize + 16) / arena::PAGE + 2);
     arena.fill(0x5A);
     ctx.leaf(
@@ -88,7 +88,8 @@ fn run(ctx: &mut Ctx) {
             ctx.nontrivial();
         },
     );
-    let mut magics_small = vec![SPEC_MAGIC, SPEC_MAGIC ^ 1, 0];
+    // the magic, a one-bit neighbour, zero, and look-alikes of other byte orders / other boot protocols
+    let mut magics_small = vec![SPEC_MAGIC, SPEC_MAGIC ^ 1, 0, SPEC_MAGIC.swap_bytes(), SPEC_MAGIC.rotate_left(16), 0x36D7_6289, 0x1BAD_B002];
     let mut magics_full = magics_small.clone();
     for b in 1..32 {
         magics_full.push(SPEC_MAGIC ^ (1 << b));
